@@ -92,6 +92,45 @@ func c17Server(pattern string, keys []string) (clause, detail string) {
 	if !ok2 || strings.Join(gotScan, "\x00") != strings.Join(want, "\x00") {
 		return "scan-set", fmt.Sprintf("SCAN 0 MATCH %q COUNT 1000 selected %q, KEYS/glob semantics select %q", pattern, gotScan, want)
 	}
+	// a complete SCAN iteration (follow the returned cursor until it is 0) with small
+	// COUNTs must select the same keys, each once
+	for _, count := range []string{"1", "2", "7"} {
+		seen := map[string]int{}
+		cursor := "0"
+		done := false
+		for round := 0; round <= len(keys)+2; round++ {
+			o := srv.RunConn(ex.Server, seq.NewConn(seq.Script{Input: grammar.Encode([]string{"SCAN", cursor, "MATCH", pattern, "COUNT", count})}))
+			if cl, dt := crashClause(o); cl != "" {
+				return cl, dt
+			}
+			v, _, derr := resp.Decode(o.Reply, 0)
+			if derr != nil || v.Kind != resp.Array || len(v.Elems) != 2 || v.Elems[1].Kind != resp.Array {
+				return "scan-reply", fmt.Sprintf("SCAN %s MATCH %q COUNT %s replied %s", cursor, pattern, count, trunc(o.Reply, 80))
+			}
+			for _, e := range v.Elems[1].Elems {
+				seen[string(e.Data)]++
+			}
+			cursor = string(v.Elems[0].Data)
+			if cursor == "0" {
+				done = true
+				break
+			}
+		}
+		if !done {
+			return "scan-iteration-endless", fmt.Sprintf("SCAN MATCH %q COUNT %s: after %d calls over %d keys the cursor is still %s (never 0)", pattern, count, len(keys)+3, len(keys), cursor)
+		}
+		var got []string
+		for k, n := range seen {
+			if n > 1 {
+				return "scan-iteration-duplicate", fmt.Sprintf("SCAN MATCH %q COUNT %s returned %q %d times in one iteration over an unchanged keyspace", pattern, count, k, n)
+			}
+			got = append(got, k)
+		}
+		sort.Strings(got)
+		if strings.Join(got, "\x00") != strings.Join(want, "\x00") {
+			return "scan-iteration-set", fmt.Sprintf("a complete SCAN MATCH %q COUNT %s iteration selected %q, KEYS/glob semantics select %q", pattern, count, got, want)
+		}
+	}
 	return "", ""
 }
 
@@ -195,7 +234,7 @@ func init() {
 	fw.Register(&fw.Prop{
 		ID:          "C17",
 		Level:       "exploration",
-		Rule:        "alphabet {a b * ? . + ( | $} (thorough adds ) ^ { }): ALL patterns of length <=3 x ALL keys of length <=4 (thorough: patterns <=4 x keys <=5 over 13 symbols, and the property's full product patterns <=5 x keys <=5 over the 9-symbol alphabet) compared with a recursive reference matcher; and, through the real server over the example store holding all keys of length <=2, KEYS p and SCAN 0 MATCH p COUNT 1000 for every pattern of length <=3 against the reference selection. evaluations counts (pattern,key) matches; non-trivial = patterns containing a regular-expression metacharacter.",
+		Rule:        "alphabet {a b * ? . + ( | $} (thorough adds ) ^ { }): ALL patterns of length <=3 x ALL keys of length <=4 (thorough: patterns <=4 x keys <=5 over 13 symbols, and the property's full product patterns <=5 x keys <=5 over the 9-symbol alphabet) compared with a recursive reference matcher; and, through the real server over the example store holding all keys of length <=2, KEYS p, SCAN 0 MATCH p COUNT 1000 and complete SCAN iterations (cursor followed until 0) with COUNT 1, 2 and 7 for every pattern of length <=3 against the reference selection (each key once, the iteration ends). evaluations counts (pattern,key) matches; non-trivial = patterns containing a regular-expression metacharacter.",
 		Assumptions: []string{"'[', ']' and '\\' are not in the alphabet (Redis gives them a meaning the statement does not fix)", "random longer patterns are not claimed; the full <=5 x <=5 product is enumerated in the thorough tier only"},
 		Run:         c17Run,
 		Replay:      c17Replay,
